@@ -86,8 +86,12 @@ def check_issue(ctx, issue, where, passes):
         return None
     ctx.count("offsets-checked")
     if not (0 <= s <= ci <= cie <= e <= len(text)):
+        # known family: character errors of a Def value are indexed in the definition's placeholder tag
+        sig = "C12-def-value-char-index" if getattr(issue["source_tag"], "short_base_tag", "") in ("Def", "Def-expand") \
+            and "index_in_tag" in issue else None
         ctx.violation("offsets-outside-tag-span-or-text", where,
-                      {"code": issue["code"], "span": [s, e], "char": [ci, cie], "len": len(text)})
+                      {"code": issue["code"], "span": [s, e], "char": [ci, cie], "len": len(text)}, sig)
+        return None
     tag = issue["source_tag"]
     # the span reported for the named tag/group must select that tag's own text in the validated string
     own = getattr(tag, "org_tag", None)
@@ -191,6 +195,18 @@ def run(ctx):
         all_issues.append(full)
         if len(all_issues) % 500 == 0:
             ctx.check_time()
+    # values of Def tags are checked inside the definition's placeholder tag (known finding C12-def-value-char-index)
+    from hed.models import DefinitionDict
+    dd = DefinitionDict("(Definition/P/#, (Label/aaaaaaaaaaaaaaaaaaaaaaaa#)), (Definition/C/#, (Label/#)), (Definition/Q, (Red))", schema)
+    for s in ["Def/P/x$", "Def/C/x$1", "Def/C/ok", "(Def/Q, Blue), Def/C/a$b, Green", "Def/C/{x}"]:
+        where = {"entry": "string+defs", "text": s}
+        hs = HedString(s, schema, dd)
+        eh = ErrorHandler(check_for_warnings=True)
+        eh.push_error_context(ErrorContext.HED_STRING, hs)
+        for i in hs.validate(error_handler=eh):
+            ctx.count("defs-code:" + i["code"])
+            check_issue(ctx, i, where, 2)
+        ctx.case(("defs", s), nontrivial=True)
     # sidecars and tables
     sidecar = {"cat": {"HED": {"a": "Red, Zork", "b": "(Blue, Blue)", "c": "Green/Ext"}}, "val": {"HED": "Age/#, Label/#"},
                "bad": {"HED": {"x": "Label/# "}}, "ref": {"HED": {"q": "{cat}, Red"}}}
